@@ -23,6 +23,21 @@ def model_line(machine, data, exec_arn, oracle, fuel=400, max_data=None):
     return line if max_data is None else line + "\t%d" % max_data
 
 
+def settled_model(chk, m, machine, data, exec_arn, oracle, requests, max_data=None):
+    """canonical runs in which a fan-out attempt failed: the recording is repaired for the model's phantom requests
+    (`enginerun.settle_oracle`) and the model asked again"""
+    if not m.get("fanFail"):
+        return m
+    def rerun(orc):
+        a = common.driver([model_line(machine, data, exec_arn, orc, max_data=max_data)])[0].split("\t")
+        return json.loads(a[1]) if a[0] == "ok" else None
+    m, n = enginerun.settle_oracle(m, oracle, requests, rerun)
+    if n:
+        chk.dist("oracle.runs_with_phantom_requests")
+        chk.dist("oracle.phantom_requests", n)
+    return m
+
+
 def impl_view(r):
     return {"status": r.status, "output": enginerun.mask_cause(r.output) if r.status == "SUCCEEDED" else None,
             "error": r.error if r.status == "FAILED" else None}
@@ -269,6 +284,7 @@ def run(chk):
             chk.dist("model." + m["status"])
             chk.count(key, False)
             continue
+        m = settled_model(chk, m, c["machine"], c["input"], r.exec_arn, r.plans.oracle(), r.requests, c.get("max_data"))
         nontrivial = f["states"] >= 2 or f["depth"] > 0 or m["status"] == "FAILED"
         chk.count(key, nontrivial)
         for t, k in f["types"].items():
@@ -369,6 +385,9 @@ def replay(chk, path):
     print("limit:", c.get("max_data"), "refused:", r.refusals)
     print("impl :", cj(impl_view(r)), "cause:", r.cause, "quiescent:", r.quiescent, "errors:", r.errors[:1])
     print("model:", a)
+    if a.startswith("ok\t"):
+        m2 = settled_model(chk, json.loads(a.split("\t")[1]), c["machine"], c["input"], r.exec_arn, r.plans.oracle(), r.requests, c.get("max_data"))
+        print("model after repairing the recording for phantom requests:", cj({k: v for k, v in m2.items() if k not in ("history", "log")}))
     for h in (r.history or []):
         print("   ", h["id"], h["type"])
     return 0
